@@ -16,8 +16,9 @@
 (*   funcs   the compiled functions: <<name, params, code>> in definition  *)
 (*           order                                                         *)
 (*   ok      FALSE when the program uses something the model does not      *)
-(*           translate (hash literals - their keys are ordered by the      *)
-(*           source text -, values without a spelling)                     *)
+(*           translate (hash literals whose keys are not literals - the    *)
+(*           pairs are ordered by the source text of the keys -, values    *)
+(*           without a spelling)                                           *)
 (* It is bound to the code by comparison: for every enumerated program the *)
 (* bytes, constants and functions must equal what the real compiler emits  *)
 (* (NoOptimize); a difference is reported as drift of the model.           *)
@@ -50,7 +51,7 @@ UnOpcode(op) == CASE op = "-" -> OpMinus [] op = "!" -> OpBang [] op = "sqrt" ->
 
 Bad(st) == [st EXCEPT !.ok = FALSE]
 
-RECURSIVE CVal(_, _), CValList(_, _, _), CExpr(_, _), CList(_, _, _), CStmt(_, _), CBlock(_, _, _), CCases(_, _, _, _, _), CCaseExprs(_, _, _, _, _, _), CDefaults(_, _, _), PatchAll(_, _, _)
+RECURSIVE CVal(_, _), CValList(_, _, _), CExpr(_, _), CList(_, _, _), CStmt(_, _), CBlock(_, _, _), CCases(_, _, _, _, _), CCaseExprs(_, _, _, _, _, _), CDefaults(_, _, _), PatchAll(_, _, _), CPairs(_, _, _)
 
 \* a literal value, as the harness spells it (negative numbers are a minus applied to the magnitude)
 CVal(v, st) ==
@@ -66,6 +67,44 @@ CVal(v, st) ==
     [] IsRe(v) -> IF Len(v[2]) = 0 THEN Bad(st) ELSE EmitConst(st, OpConstant, <<"R", v[2], v[3]>>)
     [] OTHER -> Bad(st)
 CValList(vs, i, st) == IF i > Len(vs) THEN st ELSE CValList(vs, i + 1, CVal(vs[i], st))
+
+\* ---- hash literals: the pairs are emitted in the order of the SOURCE TEXT of their key expressions ------
+\* (compiler.go sorts by String() of the key node, then by the node's type name, then by the value's text and
+\* type).  The model knows the text of literal keys: a non-negative integer as written, a non-negative decimal
+\* in its shortest spelling with at least one digit after the point, a string between double quotes; other
+\* keys are not translated.
+RECURSIVE FracDigits(_, _, _)
+FracDigits(r, d, k) == IF r = 0 THEN <<>> ELSE IF k = 0 THEN <<-1>>
+                       ELSE <<48 + ((r * 10) \div d)>> \o FracDigits((r * 10) % d, d, k - 1)
+PlainText(cps) == \A i \in 1..Len(cps) : cps[i] \notin {9, 10, 13, 34, 92}
+LitTextOK(e) ==
+  /\ e[1] = "lit"
+  /\ \/ (IsInt(e[2]) /\ e[2][2] >= 0)
+     \/ (IsStr(e[2]) /\ PlainText(e[2][2]))
+     \/ (IsFlt(e[2]) /\ e[2][2] >= 0 /\ e[2][3] <= 10000 /\ -1 \notin {FracDigits(e[2][2] % e[2][3], e[2][3], 9)[i] : i \in 1..Len(FracDigits(e[2][2] % e[2][3], e[2][3], 9))})
+LitText(e) ==
+  CASE IsInt(e[2]) -> Inspect(e[2])
+    [] IsStr(e[2]) -> <<34>> \o e[2][2] \o <<34>>
+    [] IsFlt(e[2]) -> LET n == e[2][2]  d == e[2][3]  fr == FracDigits(n % d, d, 9) IN
+                      Inspect(I(n \div d)) \o <<46>> \o (IF Len(fr) = 0 THEN <<48>> ELSE fr)
+\* "*ast.FloatLiteral" < "*ast.IntegerLiteral" < "*ast.StringLiteral"
+LitRank(e) == CASE IsFlt(e[2]) -> 1 [] IsInt(e[2]) -> 2 [] IsStr(e[2]) -> 3
+PairLess(p, q) ==
+  LET a == LitText(p[1])  b == LitText(q[1]) IN
+  \/ SeqLess(a, b)
+  \/ /\ a = b
+     /\ \/ LitRank(p[1]) < LitRank(q[1])
+        \/ /\ LitRank(p[1]) = LitRank(q[1])
+           /\ LET va == LitText(p[2])  vb == LitText(q[2]) IN
+              SeqLess(va, vb) \/ (va = vb /\ LitRank(p[2]) < LitRank(q[2]))
+SameKeyText(p, q) == LitText(p[1]) = LitText(q[1]) /\ LitRank(p[1]) = LitRank(q[1])
+\* translatable: every key is a literal with a known text, and where two keys are written alike the values are too
+HashOK(ps) == /\ \A i \in 1..Len(ps) : LitTextOK(ps[i][1])
+              /\ \A i \in 1..Len(ps), j \in 1..Len(ps) : (i # j /\ SameKeyText(ps[i], ps[j])) => (LitTextOK(ps[i][2]) /\ LitTextOK(ps[j][2]))
+RECURSIVE InsKeyPair(_, _), SortKeyPairs(_)
+InsKeyPair(x, sorted) == IF Len(sorted) = 0 THEN <<x>>
+                         ELSE IF PairLess(x, sorted[1]) THEN <<x>> \o sorted ELSE <<sorted[1]>> \o InsKeyPair(x, Tail(sorted))
+SortKeyPairs(ps) == IF Len(ps) = 0 THEN <<>> ELSE InsKeyPair(ps[Len(ps)], SortKeyPairs(SubSeq(ps, 1, Len(ps) - 1)))
 
 CList(es, i, st) == IF i > Len(es) THEN st ELSE CList(es, i + 1, CExpr(es[i], st))
 
@@ -84,7 +123,11 @@ CExpr(e, st) ==
          IN Emit1(Patch(s4, jmp, Here(s4)), OpPlaceholder)
     [] e[1] = "call" -> Emit3(EmitConst(CList(e[3], 1, st), OpConstant, StrConst(e[2])), OpCall, Len(e[3]))
     [] e[1] = "arr" -> Emit3(CList(e[2], 1, st), OpArray, Len(e[2]))
-    [] OTHER -> Bad(st)          \* hash literals: their keys are ordered by their source text
+    [] e[1] = "hash" ->
+         IF HashOK(e[2]) THEN Emit3(CPairs(SortKeyPairs(e[2]), 1, st), OpHash, 2 * Len(e[2])) ELSE Bad(st)
+    [] OTHER -> Bad(st)
+
+CPairs(ps, i, st) == IF i > Len(ps) THEN st ELSE CPairs(ps, i + 1, CExpr(ps[i][2], CExpr(ps[i][1], st)))
 
 CBlock(blk, i, st) == IF i > Len(blk) THEN st ELSE CBlock(blk, i + 1, CStmt(blk[i], st))
 
